@@ -508,6 +508,9 @@ class SymInt:
     def __str__(self):
         return E().registry_token(self)
 
+    def __getattr__(self, name):
+        raise Inconclusive('int.%s is not modelled for symbolic ints' % name)
+
 
 def mkint(e, lo, hi):
     return _mk(e, lo, hi)
@@ -740,6 +743,23 @@ class SymBytes:
         while n > 0 and E().branch(self.c[n - 1] == ch):
             n -= 1
         return SymBytes(self.c[:n])
+
+    def rjust(self, width, fill=b'\x00'):
+        width = _idx(width)
+        pad = max(0, width - _len(self.c))
+        return SymBytes(_cells_of(fill) * pad + self.c)
+
+    def ljust(self, width, fill=b'\x00'):
+        width = _idx(width)
+        pad = max(0, width - _len(self.c))
+        return SymBytes(self.c + _cells_of(fill) * pad)
+
+    def zfill(self, width):
+        return self.rjust(width, b'0')
+
+    def __getattr__(self, name):
+        # an operation of bytes/bytearray that the proxy does not model: never a verdict
+        raise Inconclusive('bytes.%s() is not modelled for symbolic bytes' % name)
 
     def startswith(self, p):
         p = _cells_of(p)
@@ -1085,6 +1105,9 @@ class SymStr:
 
     def __repr__(self):
         return '<symstr %d>' % _len(self.cp)
+
+    def __getattr__(self, name):
+        raise Inconclusive('str.%s() is not modelled for symbolic str' % name)
 
 
 def _enc_ascii_like(s, limit, encname):
